@@ -199,6 +199,37 @@ class Check:
                         ob.verdict = 'sat'
                         break
 
+    # ---- partitioned exploration: each task explores + decides its own obligations in a forked child
+    def run_partitioned(self, tasks, timeout_s=60, nproc=None):
+        """tasks: list of (label, fn); fn(sub) registers obligations on the sub-check `sub` (same API as this object).
+        Every task runs in a forked child (fork pool, nproc at a time): the child explores, decides each obligation with an
+        in-process z3 query (fresh context per query) and builds the replay payload of refuted ones; the parent merges the
+        decided obligations (and replays counterexamples itself)."""
+        import multiprocessing as mp
+        global _PART
+        nproc = nproc or min(16, os.cpu_count() or 1)
+        _PART = (self, tasks, timeout_s)
+        ctx = mp.get_context('fork')
+        with ctx.Pool(min(nproc, max(1, len(tasks)))) as pool:
+            for rec in pool.imap_unordered(_part_worker, range(len(tasks)), chunksize=1):
+                if rec.get('crash'):
+                    self.engine_errors.append(f"partition {rec['label']}: {rec['crash']}")
+                    continue
+                self.paths += rec['paths']
+                self.feasibility_queries += rec['feasibility_queries']
+                self.explore_s += rec['explore_s']
+                self.configurations += rec['configurations']
+                self.engine_errors.extend(rec['engine_errors'])
+                for a in rec['assumptions']:
+                    if a not in self.assumptions:
+                        self.assumptions.append(a)
+                for r in rec['obls']:
+                    ob = DoneObligation(r)
+                    self.obls.append(ob)
+                    if ob.refuted and ob.kind != 'probe':
+                        self._handle_refuted(ob)
+        _PART = None
+
     def _handle_refuted(self, ob):
         rp = ob.meta.get('replay')
         if rp is None:
@@ -334,6 +365,63 @@ class Check:
               f'inconclusive={len(inconcl)} ground={ground} paths={self.paths} known={len(self.known_hits)} '
               f'violations={len(self.violations)} solver_s={solver_s:.1f} explore_solver_s={self.explore_s:.1f} wall_s={wall:.1f} -> exit {status}')
         return status
+
+
+_PART = None
+
+
+class DoneObligation:
+    """an obligation decided in a partition child (only what the report needs)"""
+
+    def __init__(self, r):
+        self.name, self.kind, self.verdict, self.model = r['name'], r['kind'], r['verdict'], r['model']
+        self.seconds, self.ground, self.error, self.key = r['seconds'], r['ground'], r['error'], r['key']
+        self.meta = {'soft': r['soft'], 'replay': r['replay'], 'fallback_payloads': None}
+        self._smt = r['smt']
+
+    @property
+    def holds(self):
+        return self.verdict == ('unsat' if self.kind == 'forall' else 'sat')
+
+    @property
+    def refuted(self):
+        return self.verdict == ('sat' if self.kind == 'forall' else 'unsat')
+
+    def smt(self, get_model=False):
+        return self._smt
+
+
+def _part_worker(i):
+    import copy
+    import traceback
+    parent, tasks, timeout_s = _PART
+    label, fn = tasks[i]
+    try:
+        sub = copy.copy(parent)
+        sub.obls, sub.engine_errors, sub.assumptions = [], [], []
+        sub.paths = sub.feasibility_queries = sub.configurations = 0
+        sub.explore_s = 0.0
+        fn(sub)
+        out = []
+        for ob in sub.obls:
+            try:
+                v, m, t = solve._solve_one(ob, timeout_s)
+                err = None
+            except Exception as e:
+                v, m, t, err = 'error', {}, 0.0, f'{type(e).__name__}: {e}'
+            ob.verdict, ob.model, ob.seconds, ob.error = v, m, t, err
+            rp = ob.meta.get('replay')
+            if rp is not None and callable(rp[1]):
+                rp = (rp[0], rp[1](m or {})) if ob.refuted else (rp[0], None)
+            txt = ''
+            if not ob.ground and len(out) < 2:
+                txt = ob.smt()[:600]
+            out.append({'name': ob.name, 'kind': ob.kind, 'verdict': v, 'model': jsonable(m) if ob.refuted else None, 'seconds': t, 'ground': ob.ground, 'error': err,
+                        'key': ob.key, 'soft': ob.meta.get('soft', False), 'replay': jsonable(rp) if rp is not None else None, 'smt': txt})
+        return {'label': label, 'obls': out, 'paths': sub.paths, 'feasibility_queries': sub.feasibility_queries, 'explore_s': sub.explore_s,
+                'configurations': sub.configurations, 'engine_errors': sub.engine_errors, 'assumptions': sub.assumptions}
+    except BaseException:
+        return {'label': label, 'crash': traceback.format_exc()[-600:]}
 
 
 def _z3_version():
